@@ -37,16 +37,23 @@ pub enum Form {
     SetPSetP,
     SetPRmP,
     SetPEmpty,
+    /// a second task nobody has seen yet is created and deleted again (no update in between)
+    T2CreateDelete,
+    /// ... created, given a property of this replica's own, and deleted
+    T2CreateSetDelete,
 }
 
 pub const FORMS: &[Form] = &[
     Form::Nothing, Form::SetP, Form::SetQ, Form::RmP, Form::Delete, Form::CreateT2, Form::SetPSame, Form::RmQ, Form::DelCreate, Form::DelCreateSetP,
-    Form::SetPDelete, Form::SetPSetP, Form::SetPRmP, Form::SetPEmpty,
+    Form::SetPDelete, Form::SetPSetP, Form::SetPRmP, Form::SetPEmpty, Form::T2CreateDelete, Form::T2CreateSetDelete,
 ];
 
 impl Form {
     fn simple(self) -> bool {
-        matches!(self, Form::Nothing | Form::SetP | Form::SetQ | Form::RmP | Form::Delete | Form::CreateT2 | Form::SetPSame | Form::RmQ | Form::SetPEmpty)
+        matches!(self, Form::Nothing | Form::SetP | Form::SetQ | Form::RmP | Form::Delete | Form::CreateT2 | Form::SetPSame | Form::RmQ | Form::SetPEmpty | Form::T2CreateDelete | Form::T2CreateSetDelete)
+    }
+    fn deletes_t2(self) -> bool {
+        matches!(self, Form::T2CreateDelete | Form::T2CreateSetDelete)
     }
     fn deletes(self) -> bool {
         matches!(self, Form::Delete | Form::DelCreate | Form::DelCreateSetP | Form::SetPDelete)
@@ -82,6 +89,8 @@ fn suffix(form: Form, r: usize, tstamp: i64) -> Vec<AbsOp> {
         Form::CreateT2 => vec![AbsOp::Create(t2()), AbsOp::Set(t2(), format!("own{r}"), val(r, 9), at)],
         Form::SetPSame => vec![AbsOp::Set(t, "p".into(), "S".into(), at)],
         Form::SetPEmpty => vec![AbsOp::Set(t, "p".into(), String::new(), at)],
+        Form::T2CreateDelete => vec![AbsOp::Create(t2()), AbsOp::Delete(t2())],
+        Form::T2CreateSetDelete => vec![AbsOp::Create(t2()), AbsOp::Set(t2(), format!("own{r}"), val(r, 9), at), AbsOp::Delete(t2())],
         Form::DelCreate => vec![AbsOp::Delete(t), AbsOp::Create(t)],
         Form::DelCreateSetP => vec![AbsOp::Delete(t), AbsOp::Create(t), AbsOp::Set(t, "p".into(), val(r, 1), at)],
         Form::SetPDelete => vec![AbsOp::Set(t, "p".into(), val(r, 1), at), AbsOp::Delete(t)],
@@ -187,8 +196,11 @@ fn t1_expect(sc: &Scenario) -> Option<BTreeMap<(Uuid, String), BTreeSet<Option<S
             exp.insert((t1(), prop.to_string()), allowed);
         }
     }
+    // concurrent creations of the second task are all kept — unless somebody deleted it
+    // concurrently, which wins over the others' updates
+    let t2_deleted = sc.forms.iter().any(|f| f.deletes_t2());
     for (r, f) in sc.forms.iter().enumerate() {
-        if *f == Form::CreateT2 {
+        if *f == Form::CreateT2 && !t2_deleted {
             exp.insert((t2(), format!("own{r}")), [Some(val(r, 9))].into_iter().collect());
         }
     }
@@ -242,6 +254,10 @@ pub fn judge(sc: &Scenario, tag: &str, index: u64, out: &mut CaseOut) {
         for (_, a, _) in &finals {
             if deleted && a.contains_key(&t1()) {
                 out.violate("T1/delete-did-not-win".to_string(), format!("a concurrent deletion must win, but the task survived: {}", model::show_tasks(a)), replay.clone());
+                return;
+            }
+            if sc.forms.iter().any(|f| f.deletes_t2()) && a.contains_key(&t2()) {
+                out.violate("T1/delete-did-not-win/created-on-both-sides".to_string(), format!("a task created independently on several replicas and deleted by one of them survived: {}", model::show_tasks(a)), replay.clone());
                 return;
             }
             if !deleted && !a.contains_key(&t1()) {
